@@ -283,6 +283,38 @@ def run(ctx):
             ctx.violation("sign-and-hash-disagree-on-a-document", case, "both accept or both refuse", dict(hash=str(h)[:150], sign=str(sg)[:150]))
         elif h.cls == "ok" and sg.stdout.decode().strip() != sig_text(a0["key"], bytes.fromhex(h.stdout.decode().strip()[2:])):
             ctx.violation("sign-and-hash-disagree-on-a-document", case, "the signature of the digest that hash prints", dict(hash=str(h)[:150], sign=str(sg)[:150]))
+    # the same bytes by file and on stdin are judged alike: content after the JSON document is refused on both channels
+    for kind, d in (("typeddata", td_doc), ("transaction", tx_doc)):
+        for k, junk in enumerate((" }", "garbage", ",{}", " 0", "\n" + d, "\x00")):
+            pj = os.path.join(tmp, "junk_%s_%d.json" % (kind, k))
+            open(pj, "wb").write((d + junk).encode())
+            jr = [dict(args=["hash", kind, pj]), dict(args=["hash", kind, "-"], stdin=(d + junk).encode()),
+                  dict(args=["sign"] + fl + [kind, pj]), dict(args=["sign"] + fl + [kind, "-"], stdin=(d + junk).encode())]
+            for rn, r in zip(jr, ctx.cli(jr)):
+                ctx.count("trailing-content")
+                ctx.distinct(("trailing", kind, k, tuple(rn["args"][:1]), rn["args"][-1] == "-"))
+                if r.cls != "error" or r.stdout != b"":
+                    ctx.violation("trailing-content-refused", dict(op="hdwallet " + " ".join(short(x, 40) for x in rn["args"]), after_the_document=short(junk, 30)),
+                                  "error, nothing printed", str(r)[:300])
+    # empty input (zero bytes on stdin, an empty file) is input: the digest / signature of the empty string
+    pe = os.path.join(tmp, "empty.bin")
+    open(pe, "wb").write(b"")
+    d_empty = pyref.keccak256(b"\x19Ethereum Signed Message:\n0")
+    er = [dict(args=["hash", "data", "-"], stdin=b""), dict(args=["hash", "data", pe]), dict(args=["hash", "message", "-"], stdin=b""), dict(args=["hash", "message", pe]),
+          dict(args=["sign"] + fl + ["message", "-"], stdin=b""), dict(args=["sign"] + fl + ["message", pe]), dict(args=["hex", "encode", "-"], stdin=b""), dict(args=["hex", "decode", "-"], stdin=b"")]
+    ew = ["0x" + pyref.keccak256(b"").hex()] * 2 + ["0x" + d_empty.hex()] * 2 + [sig_text(a0["key"], d_empty)] * 2 + ["0x", ""]
+    for rn, w, r in zip(er, ew, ctx.cli(er)):
+        ctx.count("empty-input")
+        ctx.distinct(("empty", tuple(rn["args"][:2]), rn["args"][-1]))
+        if r.cls != "ok" or r.stdout.decode().strip() != w:
+            ctx.violation("empty-input-is-input", dict(op="hdwallet " + " ".join(short(x, 40) for x in rn["args"])), w, str(r)[:300])
+    # `sign raw` takes exactly 32 bytes: other lengths are an ordinary error
+    wl_ = [dict(args=["sign"] + fl + ["raw", "0x" + "ab" * n_]) for n_ in (0, 1, 2, 31, 33, 64, 65)] + [dict(args=["sign"] + fl + ["raw", "ab" * 31]), dict(args=["sign"] + fl + ["raw", "0x" + "ab" * 31 + "a"])]
+    for rn, r in zip(wl_, ctx.cli(wl_)):
+        ctx.count("sign-raw-wrong-length")
+        ctx.distinct(("rawlen", rn["args"][-1]))
+        if r.cls != "error" or r.stdout != b"":
+            ctx.violation("sign-raw-takes-32-bytes", dict(op="hdwallet sign raw " + short(rn["args"][-1], 70)), "an ordinary error, nothing printed", str(r)[:300])
     # a file that is literally called "-" is a file when it is named through a directory (./-  dir/-); only the bare "-" is stdin
     dash_dir = os.path.join(tmp, "dashdir")
     os.makedirs(dash_dir, exist_ok=True)
